@@ -588,7 +588,8 @@ def key_holder_dispatch(ctx, col: Collector, rule: str):
     """get_references_for_sql assigns every non-many-to-many reference to exactly one table, the one
     whose columns carry the FOREIGN KEY in render_reference, comparing table objects."""
     idx = ctx.idx
-    fi = idx.func('pydbml.renderer.sql.default.table', 'get_references_for_sql')
+    from ..inline import inlined_info
+    fi = inlined_info(idx, idx.func('pydbml.renderer.sql.default.table', 'get_references_for_sql'), depth=2)
     p = [a.arg for a in fi.node.args.args][0]
     consts = const_names(ctx)
     holders = holder_sides(ctx)
